@@ -46,7 +46,40 @@ IO_ON = {
 }
 
 
-def load_shipped(name: str, max_episode_length: Optional[int] = None, seed: Optional[int] = None, io: Optional[Dict] = None) -> Dict:
+def vary_tap_settings(cfg: Dict, rng: random.Random) -> None:
+    """Generated kill-chain options for the TAP001 / TAP003 threat-actor agents of the shipped UC7 scenarios (the
+    topology and everything else stay as shipped): schedule, repeat flags, per-stage probabilities, scan settings."""
+    for a in cfg.get("agents", []):
+        t = str(a.get("type", "")).lower()
+        if not t.startswith("tap"):
+            continue
+        s = a["agent_settings"]
+        s["frequency"] = rng.choice([2, 3, 5])
+        s["variance"] = rng.choice([0, 0, 1])
+        s["start_step"] = rng.randint(1, 5)
+        s["repeat_kill_chain"] = rng.random() < 0.4
+        s["repeat_kill_chain_stages"] = rng.random() < 0.6
+        for stage, opts in (s.get("kill_chain") or {}).items():
+            if isinstance(opts, dict) and "probability" in opts:
+                opts["probability"] = rng.choice([1, 1, 0.7, 0.4])
+        if t == "tap-001":
+            if rng.random() < 0.6:
+                s["starting_nodes"] = rng.sample(["ST_PROJ-A-PRV-PC-1", "ST_PROJ-B-PRV-PC-2", "ST_PROJ-C-PRV-PC-3"], rng.randint(1, 3))
+            prop = s["kill_chain"]["PROPAGATE"]
+            prop["repeat_scan"] = rng.random() < 0.6
+            prop["scan_attempts"] = rng.choice([1, 2, 4, 20])
+            nets = list(prop["network_addresses"])
+            if rng.random() < 0.5:
+                nets = [n for n in nets if not n.startswith("192.168.220.")] or nets  # target subnet unknown: scans exhaust
+            rng.shuffle(nets)
+            prop["network_addresses"] = nets
+            pay = s["kill_chain"]["PAYLOAD"]
+            pay["exfiltrate"] = rng.random() < 0.7
+            pay["corrupt"] = rng.random() < 0.7
+            pay["continue_on_failed_exfil"] = rng.random() < 0.5
+
+
+def load_shipped(name: str, max_episode_length: Optional[int] = None, seed: Optional[int] = None, io: Optional[Dict] = None, tap_variation: Optional[int] = None) -> Dict:
     """Load a shipped scenario unmodified except io_settings, game.seed and (to keep runs short) max_episode_length."""
     import yaml
 
@@ -57,6 +90,8 @@ def load_shipped(name: str, max_episode_length: Optional[int] = None, seed: Opti
         cfg.setdefault("game", {})["max_episode_length"] = max_episode_length
     if seed is not None:
         cfg["game"]["seed"] = seed
+    if tap_variation is not None:
+        vary_tap_settings(cfg, random.Random(tap_variation))
     return cfg
 
 
@@ -243,6 +278,11 @@ class Gen:
         if db_pw:
             db_opts["db_password"] = db_pw
         svc(db_host, "database-service", db_opts)
+        # the service creates its own folder and file: known to the inventory so that file/folder actions can name them
+        hosts[db_host]["folders"].setdefault("database", [])
+        if "database.db" not in hosts[db_host]["folders"]["database"]:
+            hosts[db_host]["folders"]["database"].append("database.db")
+        hosts[db_host]["service_created_folders"] = ["database"]
         if self.chance(0.8):
             svc(db_host, "ftp-client")
         svc(web_host, "web-server")
